@@ -25,4 +25,11 @@ def jobs(tier):
     for h, fn in [("h_show_look_int", ["Int_Show", "Int_Look", "print_to_with", "scan_from_with"]), ("h_show_look_float", ["Float_Show", "Float_Look", "print_to_with", "scan_from_with"])]:
         J.append(Job("C15.%s" % h[2:], "C15", "K3", "Show/k3.c", h, fn, link=L2, replace_calls=RC, unwind=24, defines=["CV_NUM_INLINE"], gen={"gen_format.h": _C14.header("%d")}, group="numeric.show_look",
                      cbmc=["--no-malloc-may-fail"], timeout=300, replay="C15_roundtrip.c"))
+    I32, I16, I8, I64 = ("(-2147483647LL-1)", "2147483647LL"), ("-32768", "32767"), ("-128", "127"), ("(-9223372036854775807LL-1)", "9223372036854775807LL")
+    PS = [("%d", I32), ("%i", I32), ("%hd", I16), ("%hhd", I8), ("%ld", I64), ("%li", I64), ("%lld", I64), ("%jd", I64), ("%u", ("0", "4294967295LL")), ("%x", ("0", "4294967295LL")),
+          ("%lu", ("0", I64[1])), ("%lx", ("0", I64[1])), ("%hu", ("0", "65535")), ("%o", ("0", "4294967295LL"))]
+    for n, (f, (lo, hi)) in enumerate(PS):
+        J.append(Job("C15.print_scan.%s" % f[1:], "C15", "K3", "Show/k3.c", "h_print_scan", ["print_to_with", "scan_from_with"], link=L, replace_calls=RC, unwind=24,
+                     defines=['PS_W="%s"' % f, 'PS_R="%s"' % f, "PS_LO=%s" % lo, "PS_HI=%s" % hi], gen={"gen_format.h": _C14.header("%d")}, group="numeric.print_scan",
+                     cbmc=["--no-malloc-may-fail"], timeout=300, case="specification %s, values %s..%s" % (f, lo, hi), replay="C15_roundtrip.c"))
     return J
